@@ -51,7 +51,18 @@ def run_property(prop: str, tier: str, seed: int) -> int:
         repo = Repo()
         rep = Report(prop)
         rep.notes['normalisation'] = dict(repo.normalize_stats, helpers_inlined=sorted({r[1] for r in repo.normalized_helpers}))
-        mod.run(repo, rep)
+        try:
+            mod.run(repo, rep)
+        except AnalysisError as exc:
+            # a rule met code it cannot read.  What the rules that ran before it found stands: an unlisted violation is
+            # reported (exit 1); without one there is no verdict (exit 2)
+            from .report import VIOLATION, load_known
+            known = [k for k in load_known() if k.get('property') == prop and k.get('status') == 'known']
+            unlisted = [o for o in rep.obligations if o.verdict == VIOLATION
+                        and not any(k.get('rule') == o.rule and k.get('construct') == o.construct for k in known)]
+            if not unlisted:
+                raise
+            print('ANALYSIS-INCOMPLETE property=%s %s (violations found before that point are reported)' % (prop, exc))
         extra = None
         if tier == 'thorough':
             # the static rules already cover every path / cell / interval of the current tree; the thorough
@@ -61,7 +72,7 @@ def run_property(prop: str, tier: str, seed: int) -> int:
             st = run_all(prop, jobs=int(os.environ.get('VERIF_JOBS', '16')))
             extra = {
                 'programs': st['variants'],
-                'selftest': {k: st[k] for k in ('variants', 'must_fire', 'fired', 'must_stay_silent', 'silent', 'skipped')},
+                'selftest': {k: st[k] for k in ('variants', 'must_fire', 'fired', 'must_stay_silent', 'silent', 'must_be_undecided', 'undecided', 'skipped')},
                 'selftest_wrong': [{'variant': r['variant'], 'rc': r.get('rc')} for r in st['wrong']],
                 'selftest_samples': [{'variant': r['variant'], 'expect': r.get('expect'), 'status': r['status'],
                                       'rules': r.get('rules', [])} for r in st['results'][:40]],
